@@ -4,6 +4,7 @@ import (
 	"fmt"
 	"golang.org/x/text/unicode/norm"
 	"regexp"
+	"sort"
 	"strings"
 	"testing"
 	"time"
@@ -365,24 +366,26 @@ var lineNoRe = regexp.MustCompile(`line \d+`)
 
 func c18Normalize(s string, inverse map[string]string) string {
 	s = lineNoRe.ReplaceAllString(s, "line N")
-	// map renamed names back (longest first to avoid partial overlaps)
-	keys := make([]string, 0, len(inverse))
-	for k := range inverse {
-		keys = append(keys, k)
+	if len(inverse) == 0 {
+		return s
 	}
-	for i := 0; i < len(keys); i++ {
-		for j := i + 1; j < len(keys); j++ {
-			if len(keys[j]) > len(keys[i]) {
-				keys[i], keys[j] = keys[j], keys[i]
-			}
-		}
+	// map renamed names back.  দেখাও writes NFC while diagnostics quote names as written, and the fresh names
+	// include spellings that NFC rewrites, so the whole text and every name are compared in NFC; longest name
+	// first, so that name_10 is not taken for name_1 followed by 0.
+	s = norm.NFC.String(s)
+	type pair struct{ from, to string }
+	var ps []pair
+	for k, v := range inverse {
+		ps = append(ps, pair{norm.NFC.String(k), v})
 	}
-	for _, k := range keys {
-		s = strings.ReplaceAll(s, k, inverse[k])
-		// দেখাও writes NFC: a renamed name printed as part of a function value appears in that form
-		if nk := norm.NFC.String(k); nk != k {
-			s = strings.ReplaceAll(s, nk, inverse[k])
+	sort.Slice(ps, func(i, j int) bool {
+		if len(ps[i].from) != len(ps[j].from) {
+			return len(ps[i].from) > len(ps[j].from)
 		}
+		return ps[i].from < ps[j].from
+	})
+	for _, p := range ps {
+		s = strings.ReplaceAll(s, p.from, p.to)
 	}
 	return s
 }
